@@ -844,7 +844,7 @@ class NAryMatrixRelation(AbstractBaseRelation, SimpleRepr):
         """
         if isinstance(var_values, list):
             _, s = self._slice_matrix([v.name for v in self._variables], var_values)
-            matrix = np.copy(self._m)
+            matrix = self._copy_matrix_for(rel_value)
             matrix[s] = rel_value
             return NAryMatrixRelation(self._variables, matrix, name=self.name)
 
@@ -853,10 +853,19 @@ class NAryMatrixRelation(AbstractBaseRelation, SimpleRepr):
             for v in self._variables:
                 values.append(var_values[v.name])
             _, s = self._slice_matrix([v.name for v in self._variables], values)
-            matrix = np.copy(self._m)
+            matrix = self._copy_matrix_for(rel_value)
             matrix[s] = rel_value
             return NAryMatrixRelation(self._variables, matrix, name=self.name)
         raise ValueError("Could not set value, must be list or dict")
+
+    def _copy_matrix_for(self, rel_value):
+        # An integer matrix would silently truncate a float value.
+        matrix = np.copy(self._m)
+        if isinstance(rel_value, (float, np.floating)) and np.issubdtype(
+            matrix.dtype, np.integer
+        ):
+            matrix = matrix.astype(np.float64)
+        return matrix
 
     @staticmethod
     def from_func_relation(rel: RelationProtocol) -> "NAryMatrixRelation":
